@@ -159,11 +159,25 @@ def add_queue_suites(c, samples, exhaustive_n, n_random):
     samples.append({"suite": "ackq-random-collisions", "ops": ops[:14]})
 
 
+def add_concurrent_suite(c, samples):
+    """register / acknowledge / sweep from 16 goroutines on the real queue: every accepted entry resolves exactly once"""
+    rounds = 2 if c.tier == "quick" else 12
+    ops = [f"stress ackq {700 if c.tier == 'quick' else 1500} {c.seed * 100 + r}" for r in range(rounds)]
+    want = "resolved-twice=0 unresolved=0"
+
+    def mon(ops_, impl):
+        return [(i, "post-stress-invariant", f"`{op}` on 16 goroutines: {res} (expected {want})")
+                for i, (op, res) in enumerate(zip(ops_, impl)) if res != want and res != "<no-output>"]
+    c.run_suite(Suite("ackq-concurrent", "stress", ops, mon, {"cases": len(ops), "nontrivial": len(ops), "goroutines": 16}, resets=("stress",), compare=False), timeout=1200)
+    samples.append({"suite": "ackq-concurrent", "ops": ops[:2]})
+
+
 def main(tier=None):
     c = Check("C04", ["Wasp.Properties.C04", "Wasp.Properties.C04Lit", "Wasp.Properties.Facts.C04"], tier)
     c.build()
     samples = []
     add_queue_suites(c, samples, 3 if c.tier == "quick" else 4, 2000 if c.tier == "quick" else 40000)
+    add_concurrent_suite(c, samples)
     c.assumptions += ["gotomic.Hash behaves as a map with atomic put-if-missing/delete", "time.Time.Round(time.Second) modelled on millisecond integers",
                       "concurrent register/acknowledge/sweep is C20's half of the quantifier"]
     return c.finish(samples=samples,
